@@ -129,4 +129,15 @@ theorem plan_nonce (s : St) (t : Txn) (r : CResult) (p : Plan) (h : plan s t r =
     · simp [h1, h2] at h
     · exact ⟨by simpa using h2, by omega⟩
 
+theorem applyWrites_append (s : Store) (a b : List Write) :
+    applyWrites s (a ++ b) = applyWrites (applyWrites s a) b := by
+  induction a generalizing s with
+  | nil => rfl
+  | cons w ws ih => cases w <;> simp [applyWrites, ih]
+
+theorem opt_cases {α : Type} (o : Option α) : o = none ∨ ∃ a, o = some a := by
+  cases o
+  · exact Or.inl rfl
+  · exact Or.inr ⟨_, rfl⟩
+
 end ZChain.Ledger
